@@ -912,23 +912,65 @@ func ruleBuilderDispatch(c *Ctx, ax *PkgIndex, rule string) {
 			}
 			seen := g.ReachUnder(env)
 			var got []string
-			for x := range seen {
-				rs, ok := x.N.(*ast.ReturnStmt)
-				if !ok || len(rs.Results) != 2 {
-					continue
-				}
-				call, ok := unparen(rs.Results[0]).(*ast.CallExpr)
+			// classify one (measure, compute) pair; subst maps an expression of a dispatch helper to the caller's argument
+			classify := func(r0, r1 ast.Expr, subst func(ast.Expr) ast.Expr) {
+				call, ok := unparen(r0).(*ast.CallExpr)
 				meas := "?"
 				if ok && callToDecl(info, filter)(call) && len(call.Args) == 1 {
-					if sel, ok := unparen(call.Args[0]).(*ast.SelectorExpr); ok {
+					if sel, ok := unparen(subst(call.Args[0])).(*ast.SelectorExpr); ok {
 						meas = exprStr(sel.X) + "." + sel.Sel.Name
 					}
 				}
 				comp := "?"
-				if sel, ok := unparen(rs.Results[1]).(*ast.SelectorExpr); ok {
+				if sel, ok := unparen(subst(r1)).(*ast.SelectorExpr); ok {
 					comp = exprStr(sel.X) + "." + sel.Sel.Name
 				}
 				got = append(got, meas+"/"+comp)
+			}
+			ident := func(e ast.Expr) ast.Expr { return e }
+			for x := range seen {
+				rs, ok := x.N.(*ast.ReturnStmt)
+				if !ok {
+					continue
+				}
+				if len(rs.Results) == 2 {
+					classify(rs.Results[0], rs.Results[1], ident)
+					continue
+				}
+				// return b.dispatch(X.measure, X.delta, X.cumulative): the helper's returns under the same temporality, with its
+				// parameters replaced by this call's arguments
+				if len(rs.Results) != 1 {
+					continue
+				}
+				hc, isC := unparen(rs.Results[0]).(*ast.CallExpr)
+				if !isC {
+					got = append(got, "?/?")
+					continue
+				}
+				h := ax.declByObj(callee(info, hc))
+				if h == nil || h == fn || h.Body() == nil {
+					got = append(got, "?/?")
+					continue
+				}
+				hps := h.Obj.Type().(*types.Signature).Params()
+				subst := func(e ast.Expr) ast.Expr {
+					for j := 0; j < hps.Len() && j < len(hc.Args); j++ {
+						if sameVar(info, e, hps.At(j)) && !assignedIn(info, h.Body(), hps.At(j)) {
+							return hc.Args[j]
+						}
+					}
+					return e
+				}
+				hg := ax.FG(h)
+				for y := range hg.ReachUnder(env) {
+					if hrs, isR := y.N.(*ast.ReturnStmt); isR {
+						if len(hrs.Results) == 2 {
+							classify(hrs.Results[0], hrs.Results[1], subst)
+						} else {
+							got = append(got, "?/?")
+						}
+					}
+				}
 			}
 			sort.Strings(got)
 			want := "cumulative"
